@@ -21,7 +21,9 @@ CONSTANTS Fams,      \* families to enumerate (set of strings)
           Seed,      \* selects the third of the triples / the deep sample / the extra run
           Mod,       \* 1: every operator triple; 3: those with (i+j+k+Seed) % 3 = 0
           NDeep,     \* number of sampled operator sequences of length 4 (family deep)
-          PMod       \* family prim3: a selection of operator triples x place x primary: one in PMod
+          PMod,      \* family prim3: a selection of operator triples x place x primary: one in PMod
+          SiteAll,   \* families whose every tree is placed at EVERY expression site (the others: one site per tree)
+          SiteMod    \* ... per tree selected by (tree, seed): one tree in SiteMod
 
 BinOpSeq == <<"*", "/", "%", "+", "-", "==", "!=", "<", "<=", ">", ">=", "~", "!~", "is",
               "&&", "||", "=", "+=", "-=", "*=", "/=">>
@@ -32,6 +34,9 @@ VarName == <<"a", "b", "c", "d", "e", "h">>
 TyName(p) == "T" \o ToString(p)
 
 ASSUME {BinOpSeq[j] : j \in 1..NB} = BinOps /\ {PreSeq[j] : j \in 1..3} = PrefixOps
+
+RECURSIVE SetToSeq(_)
+SetToSeq(S) == IF S = {} THEN <<>> ELSE LET x == CHOOSE y \in S : TRUE IN <<x>> \o SetToSeq(S \ {x})
 
 Front(s) == SubSeq(s, 1, Len(s) - 1)
 Last(s) == s[Len(s)]
@@ -108,7 +113,7 @@ Sel(i, j, k) == (i + j + k + (Seed % 1000)) % Mod = 0
 
 \* the first component a family is enumerated by (picked in Init), the rest in Next
 FirstRange(fam) ==
-  CASE fam \in {"bin1", "bin2", "bin3", "pre1", "pre2", "suf1", "suf2", "prim1", "prim2", "prim3"} -> 1..NB
+  CASE fam \in {"bin1", "bin2", "bin3", "pre1", "pre2", "suf1", "suf2", "prim1", "prim2", "prim3", "iskw"} -> 1..NB
     [] fam \in {"prepre", "presuf", "preprim"} -> 1..3
     [] fam = "chain4" -> 1..5
     [] fam = "sufsuf" -> 1..Len(Suf2Seq)
@@ -159,6 +164,28 @@ DescsOf(fam, i1) ==
                           \cup UNION {LET d == MkBin(<<BinOpSeq[j]>>) IN
                                       {WithPre(WithBase(d, q, PrimSeq[s]), q, <<PreSeq[i1]>>) : q \in PrePositions(d), s \in 1..NPrim} :
                                       j \in 1..NB}
+    \* the type names that are keywords (`null`, `function`: tokens of their own, see JqParse.LeafTok) after every
+    \* `is` of every operator single and ordered pair (each `is` with each of the two), of the selected ordered
+    \* triples (one choice per triple); a prefix operator before the left operand of the singles; null `is` ...
+    [] fam = "iskw" ->
+         LET KwDescs(ops) ==
+               LET isAt == {p \in 2..(Len(ops) + 1) : ops[p - 1] = "is"} IN
+               IF isAt = {} THEN {}
+               ELSE {LET d0 == MkBin(ops) IN
+                     [d0 EXCEPT !.base = [p \in 1..(Len(ops) + 1) |-> IF p \in isAt THEN Ty(kw[p]) ELSE d0.base[p]]] :
+                       kw \in [isAt -> KwTypeNames]}
+             Pick(ops, ds) == \* one of ds, chosen by the operators and the seed
+               LET seq == SetToSeq(ds)
+                   h == (Len(ops[1]) + 3 * Len(ops[2]) + 5 * Len(ops[3]) + i1 + (Seed % 1000)) % Len(seq)
+               IN {seq[h + 1]}
+         IN KwDescs(<<BinOpSeq[i1]>>)
+            \cup {WithPre(d, 1, <<u>>) : d \in KwDescs(<<BinOpSeq[i1]>>), u \in PrefixOps}
+            \cup {WithBase(d, 1, Lit("null", "null")) : d \in KwDescs(<<BinOpSeq[i1]>>)}
+            \cup UNION {KwDescs(<<BinOpSeq[i1], BinOpSeq[j]>>) : j \in 1..NB}
+            \cup UNION {LET ops == <<BinOpSeq[i1], BinOpSeq[x[1]], BinOpSeq[x[2]]>>
+                             ds == KwDescs(ops)
+                         IN IF ds = {} THEN {} ELSE Pick(ops, ds) :
+                         x \in {y \in (1..NB) \X (1..NB) : Sel(i1, y[1], y[2])}}
     [] fam = "deep" -> {LET d == MkBin([j \in 1..4 |-> BinOpSeq[Rnd(s, j, NB)]])
                             q == Rnd(s, 7, 5)
                             u == PreSeq[Rnd(s, 8, 3)]
@@ -325,7 +352,9 @@ Ev(t, env, ty) ==
          IF Bad(e.v) THEN e ELSE [v |-> UnVal(t.op, e.v), env |-> e.env]
     [] t.k = "bin" /\ t.op = "is" ->
          LET l == Ev(t.l, env, ty) IN
-         IF Bad(l.v) THEN l ELSE [v |-> BoolV(KindName(l.v) = ty[t.r.v]), env |-> l.env]
+         \* a type placeholder T<p> stands for the name ty gives it; `null` and `function` are written as they are
+         IF Bad(l.v) THEN l
+         ELSE [v |-> BoolV(KindName(l.v) = (IF t.r.v \in DOMAIN ty THEN ty[t.r.v] ELSE t.r.v)), env |-> l.env]
     [] t.k = "bin" /\ t.op \in LogOps ->
          LET l == Ev(t.l, env, ty) IN
          IF Bad(l.v) THEN l
@@ -369,9 +398,6 @@ Table3 == <<289, 145, 326, 257, 263, 384, 318, 66, 9, 293, 352, 385, 167, 374, 3
 Table4 == <<2332, 3271, 33, 2103, 3361, 577, 2054, 3457, 2921, 2902, 2343, 2607, 2409, 2817, 2570,
             2917, 2739, 645, 294, 3365, 1609, 1039, 3437, 1673, 2981, 2204, 1154, 2944, 2638, 2345,
             1842, 2407, 1353, 3662, 2277, 2861, 3078, 1025, 2434, 2358, 3054, 2850, 2977, 3048, 1129>>
-
-RECURSIVE SetToSeq(_)
-SetToSeq(S) == IF S = {} THEN <<>> ELSE LET x == CHOOSE y \in S : TRUE IN <<x>> \o SetToSeq(S \ {x})
 
 AllCands(f, np) == np <= 2 \/ (np = 3 /\ f = "bin2")
 NCand(f, np) == IF AllCands(f, np) THEN Pow(NPool, np) ELSE IF np = 3 THEN Len(Table3) ELSE Len(Table4)
@@ -436,11 +462,44 @@ TreeLaws(t, flat) ==
      \* a rendering without grouping parentheses is the descriptor's token sequence
      /\ Len(rt) = Len(flat) => rt = flat
 
+\* The one kind of parenthesis the minimal rendering writes although the text without it still means t: around
+\* `x is T` where an operator that binds tighter than `is` follows (`(x is T) * y`: the right side of `is` is ONE
+\* token, so `x is T * y` cannot be read as x is (T * y)).  Bares(t): the renderings of t with some such pair left
+\* out, as far as they still mean t - further texts of t with fewer parentheses; they too must be read as t.
+BareOnce(t, rt) ==
+  {Without(rt, i, Match(rt, i)) : i \in {x \in 1..Len(rt) : rt[x].tag = "(" /\ rt[Match(rt, x) - 2].tag = "is"
+                                                            /\ ParseExpr(Without(rt, x, Match(rt, x))) = t}}
+Bares(t) ==
+  LET rt == Render(t) IN
+  IF \A x \in 1..Len(rt) : rt[x].tag # "is" THEN {}
+  ELSE LET b1 == BareOnce(t, rt)
+           b2 == UNION {BareOnce(t, w) : w \in b1}
+       IN b1 \cup b2
+
+\* the sites a tree is placed at: all that admit its first token (SiteAll), else one chosen by the tree and the seed
+NSites == Len(ExprSites)
+SiteAdmits(k, rt) == ExprSites[k].nofirst = "" \/ SubSeq(rt[1].text, 1, 1) # ExprSites[k].nofirst
+SitesOf(t, j) ==
+  LET rt == Render(t) IN
+  IF fam \in SiteAll THEN {k \in 1..NSites : SiteAdmits(k, rt)}
+  ELSE LET h == Len(rt) * 5 + j * 7 + i1 + (Seed % 1000)
+           k == ((h \div SiteMod) % NSites) + 1
+       IN IF h % SiteMod # 0 THEN {} ELSE IF SiteAdmits(k, rt) THEN {k} ELSE {1}
+
+\* the expression grammar is context free: at every site the tokens of t, followed by the site's terminator, are
+\* read as t and the expression ends exactly before the terminator
+SiteLaw(t, ks) ==
+  LET rt == Render(t) IN
+  \A term \in {ExprSites[k].term : k \in ks} : ParseAtSite(rt, term) = POk(t, Len(rt) + 1)
+
 Laws ==
   done /\ fam # "neg" =>
     LET cs == Cases(d)
         flat == Flat(d)
     IN /\ \A t \in cs : TreeLaws(t, flat)
+       /\ LET cseq == SetToSeq(cs) IN \A j \in 1..Len(cseq) : SiteLaw(cseq[j], SitesOf(cseq[j], j))
+       \* the bare token sequence, where it has a meaning, is the minimal rendering or one of the bare texts of its tree
+       /\ ParseExpr(flat).k # "error" => (Render(ParseExpr(flat)) = flat \/ flat \in Bares(ParseExpr(flat)))
        \* every grouping applies the same operators (inner: plus those inside [ ] and ( ))
        /\ \A t \in cs : IF fam = "inner" THEN \A u \in cs : Size(u) = Size(t)
                         ELSE Size(t) = Len(d.ops) + Len(FlattenSeq(d.pre)) + Len(FlattenSeq(d.post))
@@ -495,6 +554,8 @@ CaseVec(t, cseq, np, nc, table, j) ==
       exp |-> Sexpr(t),
       dev |-> IF dt = t THEN <<>> ELSE <<[name |-> "parse-right-assoc", exp |-> Sexpr(dt), full |-> Texts(FullParen(dt))]>>,
       alts |-> [x \in 1..(Len(cseq) - 1) |-> Texts(FullParen(cseq[IF x < j THEN x ELSE x + 1]))],
+      bares |-> LET bs == SetToSeq(Bares(t)) IN [x \in 1..Len(bs) |-> Texts(bs[x])],
+      sites |-> SetToSeq(SitesOf(t, j)),
       nalt |-> Cardinality(others),
       ndisc |-> Cardinality({x \in others : firstDisc(x) # 0}),
       runs |-> [q \in 1..Len(runs) |->
@@ -521,7 +582,7 @@ BuildTable(cseq, np, nc) ==
 Vec ==
   done =>
     IF fam = "neg"
-    THEN Emit([fam |-> fam, negflat |-> [j \in 1..Len(NegSeq) |-> NegVec(NegSeq[j])]])
+    THEN Emit([fam |-> fam, negflat |-> [j \in 1..Len(NegSeq) |-> NegVec(NegSeq[j])], sitetable |-> ExprSites])
     ELSE LET cseq == SetToSeq(Cases(d))
              np == Len(d.ops) + 1
              nc == NCand(fam, np)
